@@ -17,6 +17,7 @@ Serialized serialize_msg(const MsgSpec &m) {
     Serialized s;
     Bytes &o = s.bytes;
     o += m.interim;
+    o += m.lead;
     if (m.is_request) o += m.method + " " + m.target + " " + m.version + m.eol;
     else o += m.version + " " + strfmt("%d", m.status) + (m.reason.empty() ? std::string("") : " " + m.reason) + m.eol;
     for (auto &h : m.headers) o += header_line(h, m.eol);
@@ -411,7 +412,8 @@ void build_conn_from_script(Rng &rng, const Script &s, ConnPlan &cp, bool with_e
         }
         if (with_expect) {
             const MsgSpec &q = s.req[i];
-            x.expect.push_back(std::make_pair("req.method", q.method));
+            // (blanks before the method: skipped, or - personalities that count them as an anomaly - kept as part of the method)
+            x.expect.push_back(std::make_pair(q.lead.empty() ? "req.method" : "@method.nolead", q.method));
             x.expect.push_back(std::make_pair("req.uri", q.target));
             x.expect.push_back(std::make_pair("req.protocol", q.version));
             x.expect.push_back(std::make_pair("req.protocol_num", q.version == "HTTP/1.1" ? "101" : "100"));
